@@ -44,6 +44,7 @@ def configure(seed):
 
 STREAM_FILE_LEN = 40            # with MAX_BLOB_SIZE scaled to 32: two content blobs + terminator + sd blob
 SCALED_MAX_BLOB_SIZE = 32
+REAL_MAX_BLOB_SIZE = 2 * 2 ** 20       # lbry.blob.MAX_BLOB_SIZE, which blob_file keeps unscaled here
 
 WRONG_NAMES = [
     'ab' * 47 + 'a',            # 95 hex characters: too short
@@ -148,6 +149,8 @@ class World:
         self.dl = os.path.join(root, 'dl')
         os.mkdir(self.bd)
         os.mkdir(self.dl)
+        self.lk = os.path.join(root, 'elsewhere')      # regular files that symlinks in the blob directory point to
+        os.mkdir(self.lk)
         self.src = os.path.join(self.dl, 'src.bin')
         with open(self.src, 'wb') as f:
             f.write(bytes((7 * i + 3) % 251 for i in range(STREAM_FILE_LEN)))
@@ -191,6 +194,7 @@ class World:
             'has_stream': bool(self.query("select 1 from stream limit 1")),
             'rows': self.rows(), 'files': self.files(), 'completed': sorted(self.bm.completed_blob_hashes),
             'style': style, 'save_blobs': self.save_blobs, 'stale_unverified': stale_unverified,
+            'links': [n for n, _ in files_before if os.path.islink(os.path.join(self.bd, n))],
         }
         self.log.append(('setup', style, self.save_blobs, self.brief(self.last_setup)))
 
@@ -265,8 +269,9 @@ class World:
         for h, b in sorted(self.bm.blobs.items()):
             blobs.append((h, type(b).__name__, b.get_is_verified(), b.writing.is_set(), b.length,
                           len(b.writers), len(b.readers)))
+        links = tuple(n for n in sorted(os.listdir(self.bd)) if os.path.islink(os.path.join(self.bd, n)))
         return (tuple(self.files()), tuple(self.rows()), self.aux_rows(), tuple(sorted(self.bm.completed_blob_hashes)),
-                tuple(blobs), self.save_blobs)
+                tuple(blobs), self.save_blobs, links)
 
     # -- running an operation under a schedule -----------------------------------------------------
     def run_task(self, coro_or_none, choices, crash):
@@ -352,9 +357,27 @@ class World:
             return None, 'unlinked'
         if kind == 'drop':
             h = self.hashes()[op[1]]
+            if op[2] == 'symlink':
+                # a link in the blob directory to a regular file elsewhere (blob directory assembled from links)
+                with open(os.path.join(self.lk, h), 'wb') as f:
+                    f.write(content_of(h))
+                os.symlink(os.path.join(self.lk, h), os.path.join(self.bd, h))
+                return None, 'dropped'
             with open(os.path.join(self.bd, h), 'wb') as f:
-                f.write(content_of(h)[:len(content_of(h)) if op[2] == 'full' else 0])
+                if op[2] == 'big':
+                    f.truncate(REAL_MAX_BLOB_SIZE + 1)     # sparse; larger than any blob can be
+                else:
+                    f.write(content_of(h)[:len(content_of(h)) if op[2] == 'full' else 0])
             return None, 'dropped'
+        if kind == 'symlink':
+            # an existing blob file is moved elsewhere and replaced by a link to it, behind the back
+            h = self.hashes()[op[1]]
+            p = os.path.join(self.bd, h)
+            if os.path.islink(p):
+                return None, 'already-a-link'
+            os.replace(p, os.path.join(self.lk, h))
+            os.symlink(os.path.join(self.lk, h), p)
+            return None, 'replaced-by-link'
         if kind == 'wrong':
             for n in WRONG_NAMES:
                 with open(os.path.join(self.bd, n), 'wb') as f:
@@ -705,6 +728,14 @@ def setup_facts(obs, before_files, st, crashed):
         facts.append('setup_with_wrongly_named_files_present')
     if any(s == 0 for n, s in obs['files'] if is_blob_name(n)):
         facts.append('setup_with_zero_length_blob_file')
+    if any(s > REAL_MAX_BLOB_SIZE for n, s in obs['files'] if is_blob_name(n)):
+        facts.append('setup_with_a_blob_file_larger_than_MAX_BLOB_SIZE')
+    if obs.get('links'):
+        facts.append('setup_with_a_symlinked_blob_file')
+        if any(before.get(h) != 'finished' for h in obs['links']):
+            facts.append('setup_with_an_unrecorded_symlinked_blob_file')
+        if any(before.get(h) == 'finished' for h in obs['links']):
+            facts.append('setup_with_a_recorded_blob_file_replaced_by_a_symlink')
     unrecorded = any(before.get(h) != 'finished' for h in files)
     if obs.get('save_blobs') is False:
         facts.append('setup_under_save_blobs_false')
@@ -742,9 +773,14 @@ def base_ops(cfg):
     ops += [('unlink', h) for h in hs]
     ops += [('drop', h, 'full') for h in hs]
     ops += [('drop', h, 'empty') for h in hs if h in cfg['drop_empty']]
+    ops += [('drop', h, 'big') for h in cfg.get('drop_big', ())]
+    ops += [('drop', h, 'symlink') for h in cfg.get('symlinks', ())]
+    ops += [('symlink', h) for h in cfg.get('symlinks', ())]
     if cfg.get('wrong', True):
         ops += [('wrong',)]
-    ops += [('restart',), ('kill',)]
+    ops += [('restart',)]
+    if cfg.get('kill', True):
+        ops += [('kill',)]
     if cfg.get('same_object', True):
         ops += [('restart-same',)]
     if cfg.get('modes'):
@@ -754,7 +790,7 @@ def base_ops(cfg):
 
 def op_enabled(op, names):
     hs = PLAIN_HASH + stream_info()['all']
-    if op[0] == 'unlink':
+    if op[0] in ('unlink', 'symlink'):
         return hs[op[1]] in names
     if op[0] == 'drop':
         return hs[op[1]] not in names
@@ -848,7 +884,7 @@ def expand(item, res):
         elif ex.last_outcome and ex.last_outcome not in ('written', 'publish', 'delete', 'delstream', 'unlinked',
                                                         'dropped', 'wrong-names-added', 'restart', 'kill',
                                                         'skipped-have-it', 'begun', 'restart-same',
-                                                        'restart-flip'):
+                                                        'restart-flip', 'already-a-link', 'replaced-by-link'):
             res.tally(f'op_{step[0][0]}_raised_{ex.last_outcome}')
         full = history + [step]
         if first is None:
@@ -866,9 +902,10 @@ def expand(item, res):
             res.distinct_add('nontrivial', ex.canon)
         files = [n for n, _ in ex.canon[0]]
         out.append((step, digest16(ex.canon), files))
-    for pair in (first, last):
-        if pair is not None:
-            determinism_check(pair[0], pair[1], res)
+    if first is not None:
+        determinism_check(first[0], first[1], res)
+    if last is not None and last is not first and (len(history) == 0 or cfg.get('name') == 'config'):
+        determinism_check(last[0], last[1], res)
     with open(out_path, 'wb') as f:
         pickle.dump(out, f)
     drop_scratch()
@@ -988,12 +1025,12 @@ def phases(tier):
     if tier == 'quick':
         return [
             {'name': 'main', 'nplain': 1, 'depth': 4, 'drop_empty': [0], 'por': True, 'complete_stream_blobs': False,
-             'wrong': False, 'same_object': True},
+             'wrong': False, 'same_object': True, 'kill': False},
             {'name': 'pairs', 'nplain': 2, 'depth': 2, 'drop_empty': [0], 'por': True, 'complete_stream_blobs': True,
-             'wrong': True, 'same_object': False},
+             'wrong': True, 'same_object': False, 'kill': False},
             {'name': 'config', 'nplain': 1, 'depth': 3, 'drop_empty': [], 'por': True, 'complete_stream_blobs': True,
              'wrong': False, 'same_object': True, 'modes': True, 'begin': [0, NPLAIN + 1], 'hashes': red,
-             'delstream': False},
+             'delstream': False, 'drop_big': [0], 'symlinks': [0, NPLAIN + 1]},
         ]
     return [
         {'name': 'triples', 'nplain': 3, 'depth': 3, 'drop_empty': [0, NPLAIN + 1], 'por': True,
@@ -1002,7 +1039,7 @@ def phases(tier):
          'complete_stream_blobs': True, 'wrong': True, 'same_object': False},
         {'name': 'config', 'nplain': 1, 'depth': 4, 'drop_empty': [], 'por': True, 'complete_stream_blobs': True,
          'wrong': False, 'same_object': True, 'modes': True, 'begin': [0, NPLAIN + 1], 'hashes': red,
-         'delstream': False},
+         'delstream': False, 'drop_big': [0, NPLAIN + 1], 'symlinks': [0, NPLAIN + 1]},
         {'name': 'main', 'nplain': 1, 'depth': 6, 'drop_empty': [0], 'por': True, 'complete_stream_blobs': False,
          'wrong': False, 'same_object': True},
     ]
@@ -1042,7 +1079,7 @@ def run(ctx):
               'writer path, publish the 2-content-blob stream (create_stream with blob_completed callback, '
               'store_stream, save_published_file), delete_blobs([h], delete_from_db in {T,F}) for every blob '
               'identity, the StreamManager.delete call sequence, unlink file h behind the back, drop a correctly '
-              'named file h (full / zero length) behind the back, add wrongly named files, clean restart, kill at '
+              'named file h (full / zero length / larger than MAX_BLOB_SIZE / a symlink to a regular file elsewhere) behind the back, replace an existing blob file by a symlink to it, add wrongly named files, clean restart, kill at '
               'quiescence, stop()+setup() on the same manager object, restart with the other save_blobs setting '
               '(config configuration only), a download left unfinished (config configuration only)} x every order '
               'of its executor jobs x a process death at every job boundary (followed by a start). Every transition is executed on fresh real objects; the statement is judged on every '
@@ -1081,7 +1118,10 @@ def run(ctx):
                             'crash_inside_publish_between_file_write_and_db_write',
                             'restart_on_the_same_manager_object',
                             'same_object_restart_with_unfinished_download_and_unrecorded_file',
-                            'setup_under_save_blobs_false_with_unrecorded_file_present'],
+                            'setup_under_save_blobs_false_with_unrecorded_file_present',
+                            'setup_with_a_blob_file_larger_than_MAX_BLOB_SIZE',
+                            'setup_with_an_unrecorded_symlinked_blob_file',
+                            'setup_with_a_recorded_blob_file_replaced_by_a_symlink'],
     )
 
 
